@@ -3,6 +3,7 @@ package rules
 import (
 	"encoding/json"
 	"fmt"
+	"strings"
 )
 
 // Run dispatches the rule set of one property. It returns false for an
@@ -26,6 +27,33 @@ var Properties = map[string]func(*Ctx){
 	"C08": C08,
 	"C10": C10,
 	"C03": C03,
+	"C01": C01,
+}
+
+func C01(c *Ctx) {
+	scope := c.ScopeFrom(c.AgentFacingRoots())
+	R1Bounds(c, scope, "", 100)
+	R1PivotJobShape(c)
+	R1Asserts(c, scope, "", 30)
+	R1Nil(c, scope, "", 10)
+	R1AgentsAppendOnly(c)
+	R1PivotAddJobPre(c)
+	R1Explicit(c, scope, "")
+	R1Loops(c, scope, "")
+	R1RejectEffects(c)
+	R2GuardRead(c, "C01")
+	inScope := map[string]bool{}
+	for _, fn := range scope {
+		inScope[FuncShort(fn)] = true
+	}
+	sel := func(fn string) bool {
+		if i := strings.Index(fn, "$"); i >= 0 {
+			fn = fn[:i]
+		}
+		return inScope[fn]
+	}
+	R5RangeMut(c, sel, 8)
+	R3LockPair(c, func(fn, lock string) bool { return sel(fn) }, 6)
 }
 
 func C03(c *Ctx) {
@@ -64,6 +92,9 @@ func C05(c *Ctx) {
 // Gen prints a derived table for review.
 func Gen(c *Ctx, what string) int {
 	switch what {
+	case "census":
+		Census(c, c.ScopeFrom(c.AgentFacingRoots()))
+		return 0
 	case "completion":
 		arms, missing := c.ClassifyCompletion()
 		if missing != "" {
